@@ -966,6 +966,21 @@ def m_removeaffix(I, recv, a, k, node, kind):
     return Unk('%s.%s' % (getattr(recv, 'name', 's'), meth), kinds=_k(recv), taint=tj(recv, *a), src=('method', recv, meth, a))
 
 
+def _text_receiver(I, recv, node, meth):
+    """str/bytes-only methods called on a value whose kinds are known to include something else (an option value the header
+    parser converted to int, None): AttributeError."""
+    kr = _k(recv)
+    if not kr or isinstance(recv, (AList, ADict)):
+        return
+    other = set(kr) - {'str', 'bytes', 'bytearray'}
+    if not other:
+        return
+    if not (set(kr) & {'str', 'bytes', 'bytearray'}):
+        _raise(I, node, 'AttributeError', '%s on a %s value' % (meth, '/'.join(sorted(other))))
+    what = '/'.join(sorted(other)) if len(other) <= 3 else 'something other than text (%s, ...)' % '/'.join(sorted(other & {'int', 'NoneType', 'bool'}) or sorted(other)[:2])
+    I.may_raise(node, ['AttributeError'], '.%s on a value that may be %s' % (meth, what), (recv,))
+
+
 def m_strsimple(I, recv, a, k, node, kind):
     if is_concrete(recv) and all(is_concrete(x) for x in a):
         try:
@@ -974,6 +989,8 @@ def m_strsimple(I, recv, a, k, node, kind):
             pass
     meth = _mname(I, node)
     rk = _k(recv)
+    if meth not in ('count',):        # list.count exists
+        _text_receiver(I, recv, node, meth)
     if meth in ('isdigit', 'isspace', 'isalnum', 'isdecimal', 'isnumeric', 'isupper', 'islower', 'isalpha', 'isidentifier', 'istitle'):
         return Unk('cond', kinds=['bool'], taint=tj(recv), src=('cond', lambda t: None))
     if meth == 'count':
